@@ -254,10 +254,16 @@ void equalities(Mon& M, Rng& rng)
    }
    // the library's own basic specifier / qualifier values (what decompose hands out) for the spellings that are basic names
    std::vector<std::vector<Basic_specifier>> lib_s(sp.size()); std::vector<std::vector<Basic_qualifier>> lib_q(sp.size());
-   for (std::size_t i = 0; i < sp.size(); ++i) {
-      try { for (auto& b : L.decompose(L.specifiers(Basic_specifier { *vals[i].g }))) lib_s[i].push_back(b); } catch (...) { }
-      try { for (auto& b : L.decompose(L.qualifiers(Basic_qualifier { *vals[i].g }))) lib_q[i].push_back(b); } catch (...) { }
-      C.count("library_made_basic_specifiers", (long long)lib_s[i].size()); C.count("library_made_basic_qualifiers", (long long)lib_q[i].size());
+   // (obtained from the named accessors, so that nothing here depends on the name -> set mapping, which is C10's subject)
+   {
+      const Specifiers named_s[] = { L.export_specifier(), L.static_specifier(), L.extern_specifier(), L.mutable_specifier(), L.thread_local_specifier(), L.register_specifier(), L.inline_specifier(),
+         L.constexpr_specifier(), L.consteval_specifier(), L.virtual_specifier(), L.abstract_specifier(), L.explicit_specifier(), L.friend_specifier(), L.typedef_specifier(), L.public_specifier(),
+         L.protected_specifier(), L.private_specifier() };
+      const Qualifiers named_q[] = { L.const_qualifier(), L.volatile_qualifier(), L.restrict_qualifier() };
+      Specifiers all_s { }; for (auto x : named_s) all_s |= x;
+      Qualifiers all_q { }; for (auto x : named_q) all_q |= x;
+      for (auto& b : L.decompose(all_s)) for (std::size_t i = 0; i < sp.size(); ++i) if (narrow(b.logogram().what().characters()) == sp[i]) { lib_s[i].push_back(b); C.count("library_made_basic_specifiers"); }
+      for (auto& b : L.decompose(all_q)) for (std::size_t i = 0; i < sp.size(); ++i) if (narrow(b.logogram().what().characters()) == sp[i]) { lib_q[i].push_back(b); C.count("library_made_basic_qualifiers"); }
    }
    auto check = [&](const char* what, bool e, bool ne, bool same) {
       C.count("equality_pairs");
@@ -344,7 +350,7 @@ static void body(Ctx& C)
    std::string list = "["; for (auto& k : M.kinds_seen) { if (list.size() > 1) list += ","; list += jstr(k); } C.extra("kinds_and_states", list + "]");
    C.sample(J().s("case", "Block with 3 handlers: try_block() vs handlers().size() > 0; body() vs region().body()").str());
    C.sample(J().s("case", "Linkage(\"C\") == Linkage(get_string(\"C\")) and != Linkage(\"c\")").str());
-   C.need("sequence_checks"); C.need("derived_checks"); C.need("equality_pairs"); C.need("nodes_checked"); C.need("library_made_basic_specifiers", 18); C.need("library_made_basic_qualifiers", 3);
+   C.need("sequence_checks"); C.need("derived_checks"); C.need("equality_pairs"); C.need("nodes_checked"); C.need("library_made_basic_specifiers", 17); C.need("library_made_basic_qualifiers", 3);
 }
 
 int main(int argc, char** argv) { return guarded_main(argc, argv, body); }
